@@ -441,3 +441,55 @@ Proof.
   split; [|vm_compute; reflexivity].
   intros [_ [s0 [e0 [Heq Hlt]]]]. unfold span2 in Heq. inversion Heq; subst s0 e0. vm_compute in Hlt. discriminate Hlt.
 Qed.
+
+(* ====================================================================================
+   Third pass: clauses that are false of the code as it is (recorded findings C03-K7, C03-K8)
+   ==================================================================================== *)
+
+(* "the protoclusters reported for a rule are the maximal groups ... (also across the origin of a circular record)"
+   needs the rule's anchoring genes to be found across the origin.  False (finding C03-K8 anchor_window_full_record):
+   on a circular record of 4000 bases with cutoff 2000 the genes [100:200) (p0) and [3800:3900) (p1), 300 apart over
+   the origin, are no anchoring genes of "p0 and p1" (apply_cluster_rules, as the code is), although they are under
+   the specification anchors_spec (every rule evaluated over the whole record with the ring distance) and although
+   the same genes on a record 101 bases longer are.  The cutoff window of a gene covers the whole record, so
+   _extend_area_location returns one part and circular_origin stays 0. *)
+Theorem C03_anchor_window_refuted : exists N gs hs rules,
+  apply_cluster_rules N true gs hs rules true = Ok [] /\
+  anchors_spec N true gs hs rules = Ok [(0, [0; 1])] /\
+  apply_cluster_rules (N + 101) true [(0, [mkPart 100 200 1]); (1, [mkPart 3901 4001 1])] hs rules true = Ok [(0, [0; 1])].
+Proof. exact anchor_window_refuted. Qed.
+Print Assumptions C03_anchor_window_refuted.
+
+(* "maximal groups": two protoclusters of one rule never have cores closer than the cutoff.  False on a circular
+   record (finding C03-K7 merge_scan_adjacent_only): the pipeline returns two protoclusters of the same rule whose
+   cores share a gene, because merge_over_origin compares every cluster only with its predecessor in the order of the
+   starts of the cutoff-extended cores, in which the first and the last cluster of the record come first and the
+   second-to-last one last. *)
+Theorem C03_merge_scan_adjacent_refuted : exists N gs hs rules protos p q,
+  pipeline N true gs hs rules true = Ok protos /\ In p protos /\ In q protos /\ p <> q /\
+  p_rule p = p_rule q /\ overlap (p_core p) (p_core q) = true.
+Proof. exact merge_scan_adjacent_refuted. Qed.
+Print Assumptions C03_merge_scan_adjacent_refuted.
+
+(* the witness of C03_merge_scan_adjacent_refuted read from an origin 3000 bases further on: one protocluster for
+   the four genes near each other (and one for the lone gene), i.e. the defect depends on where the origin lies *)
+Example C03_merge_scan_rotated :
+  pipeline 10000 true [(2, [mkPart 900 1000 1]); (3, [mkPart 1450 1550 1]); (4, [mkPart 2000 2100 1]); (0, [mkPart 3050 3150 1]);
+                       (1, [mkPart 8000 8100 1])]
+           [(0, [(0, 0)]); (1, [(0, 0)]); (2, [(0, 0)]); (3, [(1, 0)]); (4, [(0, 0)])]
+           [mkRule 1000 0 (C01.Model.Single false 0) (Some (C01.Model.Single false 1)) []] true
+  = Ok [(0, [mkPart 900 3150 1], [mkPart 900 3150 1]); (0, [mkPart 8000 8100 1], [mkPart 8000 8100 1])].
+Proof. exact merge_scan_rotated_ok. Qed.
+
+(* "the core is the smallest span covering its group plus any genes admitted by the rule's EXTENDERS clause", read as:
+   a gene that satisfies the extender condition and shares a base with the core (distance 0) belongs to it.  False
+   (finding C03-K9 extender_overlapping_core_not_admitted), on a linear record: the extension walks the genes in gene
+   order and measures the distance from the previous match, starting at the first / last core gene IN GENE ORDER, and
+   stops at the first gene farther than the cutoff from it; with a long gene lying over short ones that gene is not the
+   one reaching farthest, so a gene overlapping the far end of the core (or a long gene covering the whole core that
+   starts before a short gene farther than the cutoff) is never reached. *)
+Theorem C03_extender_overlap_refuted : exists N gs hs rules protos p g,
+  pipeline N false gs hs rules true = Ok protos /\ In p protos /\ In g gs /\
+  can_extend hs (nth_rule rules (p_rule p)) g = true /\ overlap (snd g) (p_core p) = true /\ contains (p_core p) (snd g) = false.
+Proof. exact extender_overlap_refuted. Qed.
+Print Assumptions C03_extender_overlap_refuted.
